@@ -248,7 +248,7 @@ fn trig_check(start: f32, sweep: f32, eps: f64) -> Result<f64, String> {
     }
     // the two rays of an Intersection sector must be in proper position (Coq: K18_tiny_sweep_opposite_side = false)
     // as soon as the sweep exceeds the resolution of the normals (whole degrees in the fixed_point build)
-    let (min_sweep, max_sweep) = if cfg!(feature = "fixed_point") { (1.01, 178.99) } else { (0.1, 179.9) };
+    let (min_sweep, max_sweep) = if cfg!(feature = "fixed_point") { (1.01, 178.99) } else { (0.12, 179.88) };
     if op == 0 && w64.abs() >= min_sweep && w64.abs() < max_sweep && (r.x as i64 * l.y as i64 - r.y as i64 * l.x as i64) <= 0 {
         return Err(format!("class=degenerate_cone start={} sweep={} left=({},{}) right=({},{})", start, sweep, l.x, l.y, r.x, r.y));
     }
@@ -351,6 +351,21 @@ pub fn search(suite: &str, a: &[&str]) -> Option<String> {
                 }
             }
             format!("OK {} worst={:.3}", n, worst)
+        }
+        // p_trig_bits <lo> <hi> <eps_milli>: with_angle for EVERY f32 bit pattern lo..hi (value in degrees, sweep 0)
+        "p_trig_bits" => {
+            let (lo, hi, eps) = (a[0].parse::<u32>().unwrap(), a[1].parse::<u32>().unwrap(), i(a[2]) as f64 / 1000.0);
+            let mut worst = 0f64;
+            for b in lo..hi {
+                let deg = f32::from_bits(b);
+                let n = normal_of(deg.deg());
+                let e = nerr(n, deg as f64);
+                if e > eps {
+                    return Some(format!("FAIL class=normal_error angle={} (bits {}) normal=({},{}) err={:.3} eps={}", deg, b, n.x, n.y, e, eps));
+                }
+                worst = worst.max(e);
+            }
+            format!("OK {} worst={:.3}", hi - lo, worst)
         }
         // p_entire <seed> <n>: |sweep| >= 360 degrees always yields EntirePlane (and the sector is the circle)
         "p_entire" => {
